@@ -35,5 +35,5 @@ DELIVERABLES (write them under {out}/, create the directory):
   {out}/A/demo.py
   {out}/A/notes.md     (what the change is, which sub-claim of the property it breaks, what precisely is needed for it to manifest, the commands you ran and their results: test-suite tail with change, demo with change (fails), demo without change (passes))
   and the same under {out}/B/ for change B.
-When finished with each change, restore the worktree (`git -C {wt} checkout -- .`) so that the patches are independent; at the very end leave the worktree clean (`git -C {wt} status --short` empty). Do not commit anything. Do not install anything (no network). Running the full test suite takes ~40-60 s.
+When finished with each change, restore the worktree (`git -C {wt} checkout -- .`) so that the patches are independent; at the very end leave the worktree clean (`git -C {wt} status --short` empty). Do not commit anything. NEVER use `git stash` (the stash is shared with other worktrees of the same repository; use `git diff > file` and `git checkout -- .` instead). Do not hard-code the worktree path inside demo.py (it will be re-run from another checkout with the same command line, cwd = checkout root and PYTHONPATH = checkout root). Do not install anything (no network). Running the full test suite takes ~40-60 s.
 Reply with a short summary of the two changes and confirmation of (a)-(c) for each.""")
